@@ -79,7 +79,7 @@ def _page(ctx, kind, tag=""):
     return mp
 
 
-def h_modeselect(ctx, ten, kinds, set_name="spc"):
+def h_modeselect(ctx, ten, kinds, set_name="spc", from_sense=False):
     spec = L.CDB["MODE SELECT(10)" if ten else "MODE SELECT(6)"]
     opcode = K.lookup_opcode(spec, set_name)
     data = {"medium_type": ctx.int("medium_type", 8), "device_specific_parameter": ctx.int("dsp", 8),
@@ -88,6 +88,11 @@ def h_modeselect(ctx, ten, kinds, set_name="spc"):
         data["longlba"] = ctx.int("longlba", 1)
     pf, sp = ctx.int("pf", 1), ctx.int("sp", 1)
     want = P.mode_select(ten, data)
+    if from_sense:
+        # the dictionary comes out of a MODE SENSE of a device that returned a block descriptor: header fields of that
+        # response may ride along; the library sends no block descriptors, so BLOCK DESCRIPTOR LENGTH stays 0
+        data["mode_data_length"] = ctx.int("sense_mdl", 16 if ten else 8)
+        data["block_descriptor_length"] = ctx.int("sense_bdl", 16 if ten else 8)
     c = K.get_class(spec)(opcode, data, pf=pf, sp=sp)
     got = c.dataout
     n = len(want)
@@ -169,6 +174,11 @@ def h_xcopy(ctx, lid, targets, segments, inline_len, set_name="spc", stale_lengt
         # segment type, or supplied by the caller): the emitted length must still be the one that follows
         for i, sd in enumerate(sl):
             sd["descriptor_length"] = ctx.int("stale_len%d" % i, 16)
+        # ... likewise a DESIGNATOR LENGTH inside an identification descriptor (the class docstring's own example
+        # passes one): the library computes that length, whatever the dictionary says
+        pkey = "target_descriptor_parameters" if lid == 1 else "cscd_descriptor_parameters"
+        for i, td in enumerate(tl):
+            td[pkey]["designator_length"] = ctx.int("stale_dlen%d" % i, 8)
     big = inline_len > 4096
     inline = bytearray(b"\xc3" * inline_len) if big else ctx.bytes("inline", inline_len)
     want_t = [dict(t) for t in tl]
@@ -230,6 +240,7 @@ def obligations(tier):
         for k in R.MODE_PAGES:
             add("%s/%s" % (nm, k), "h_modeselect", ten=ten, kinds=[k])
         add("%s/two-pages" % nm, "h_modeselect", ten=ten, kinds=["control", "disconnect"])
+        add("%s/dictionary-from-mode-sense" % nm, "h_modeselect", ten=ten, kinds=["control"], from_sense=True)
         add("%s/no-pages" % nm, "h_modeselect", ten=ten, kinds=[])
         if not q:
             add("%s/four-pages" % nm, "h_modeselect", ten=ten, kinds=list(R.MODE_PAGES))
@@ -244,6 +255,9 @@ def obligations(tier):
             add("xcopy%d/segment/%02x" % (lid, code), "h_xcopy", lid=lid, targets=[], segments=[code], inline_len=0)
         for code in (0, 2):
             add("xcopy%d/segment/%02x/stale-descriptor-length" % (lid, code), "h_xcopy", lid=lid, targets=[], segments=[code],
+                inline_len=0, stale_length=True)
+        for des in ("naa5", "t10"):
+            add("xcopy%d/target/%s/stale-designator-length" % (lid, des), "h_xcopy", lid=lid, targets=[[0, des]], segments=[],
                 inline_len=0, stale_length=True)
         for il in ((0, 1, 9) if q else range(0, 10)):
             add("xcopy%d/two-targets-two-segments/inline=%d" % (lid, il), "h_xcopy", lid=lid,
